@@ -32,7 +32,7 @@ def _sig3(x, up):
 
 def budget_alphabet(p, n_test=3, iroas=1.0):
     """Budget ranges relative to the panel's reference budgets (all designs, all geos free, default window)."""
-    key = (p['name'], p['G'], p['T'], p.get('seed', 0), p.get('variant', 'plain'))
+    key = (p['name'], p['G'], p['T'], p.get('seed', 0), p.get('variant', 'plain'), p.get('scale_pow', 0))
     if key in _BUDGETS:
         return _BUDGETS[key]
     _, tab = rpanel.table(panels.rows(p))
@@ -255,7 +255,7 @@ def _mids(values, lo_pad, hi_pad, min_gap=1e-6):
 
 
 def threshold_space(p, methods=('exhaustive_search', 'greedy_search'), iroas_values=(1.0, 2.5), base_kw=None,
-                    rho_values=(0.995,)):
+                    rho_values=(0.995,), parts=('budget', 'share', 'volume')):
     """Constraint bounds placed between EVERY two consecutive critical values of the panel, so that every behaviour
     of the threshold logic (per treatment group and per design) occurs:
       budget: optimistic impacts of all geo subsets and required impacts of all designs (also divided by iroas)
@@ -263,9 +263,10 @@ def threshold_space(p, methods=('exhaustive_search', 'greedy_search'), iroas_val
     import itertools as it
     base_kw = dict(base_kw or {})
     _, tab = rpanel.table(panels.rows(p))
-    ser = rpanel.window(tab, 90)
+    ser = rpanel.window(tab, base_kw.get('n_pretest_max', 90))
     share = rpanel.shares(tab)
-    geos = sorted(tab)
+    wshare = rpanel.shares(ser)      # shares within the analysis window: critical values of a WRONG reading, so that
+    geos = sorted(tab)               # a bound lands between the documented (all dates) and the windowed value
     rowd = {g: (1, 1, 1) for g in geos}
     G = p['G']
     out = []
@@ -275,7 +276,7 @@ def threshold_space(p, methods=('exhaustive_search', 'greedy_search'), iroas_val
         x, y = rpanel.agg(ser, C), rpanel.agg(ser, T)
         ri.append(rstats.est_impact(y, rstats.corr(x, y), 3, 0.9, 0.9, 0.8))
     subsets = [s for r in range(1, G + 1) for s in it.combinations(geos, r)]
-    for rho in rho_values:
+    for rho in (rho_values if 'budget' in parts else ()):
         opt = [rstats.est_impact(rpanel.agg(ser, s), rho, 3, 0.9, 0.9, 0.8) for s in subsets]
         for iroas in iroas_values:
             crit = [v / iroas for v in ri + opt] + ([v for v in ri + opt] if iroas != 1.0 else [])
@@ -291,7 +292,9 @@ def threshold_space(p, methods=('exhaustive_search', 'greedy_search'), iroas_val
                     out.append({'panel': p, 'rows': [[1, 1, 1]] * G, 'nomatrix': False, 'extra': None, 'kw': kw,
                                 'deviations': 1 + (iroas != 1.0) + (rho != 0.995)})
     sh = [sum(share[g] for g in s) for s in subsets if len(s) < G]
-    for m in _mids(sh, 0.5, 1.0):
+    if 'n_pretest_max' in base_kw:
+        sh += [sum(wshare[g] for g in s) for s in subsets if len(s) < G]
+    for m in (_mids(sh, 0.5, 1.0) if 'share' in parts else ()):
         m = min(m, 0.9995)
         for sr in ([0.0001, m], [m, 0.9999]):
             if sr[0] < sr[1]:
@@ -301,7 +304,10 @@ def threshold_space(p, methods=('exhaustive_search', 'greedy_search'), iroas_val
     for T, C in designs:
         r = sum(share[g] for g in C) / sum(share[g] for g in T)
         ratios.append(max(r, 1 / r))
-    for m in _mids(ratios, 1.0, 1.5):
+        if 'n_pretest_max' in base_kw:
+            r = sum(wshare[g] for g in C) / sum(wshare[g] for g in T)
+            ratios.append(max(r, 1 / r))
+    for m in (_mids(ratios, 1.0, 1.5) if 'volume' in parts else ()):
         if m > 1.0 + 1e-9:
             out.append({'panel': p, 'rows': [[1, 1, 1]] * G, 'nomatrix': False, 'extra': None,
                         'kw': dict(base_kw, volume_ratio_tolerance=m - 1.0), 'deviations': 1})
